@@ -12,7 +12,9 @@
   annotation name used as a key) is an explicit `Except PyErr` step of the model, so "never
   raises" is a statement about reachability (C11_ann_total, C11_block_total).  `validate()` is the
   one place where the unchanged tree DOES raise (C11_validate_len_counterexample / _partial).
-  The line / caret clauses at block level are covered by the model correspondence (every
+  Line numbers at block level: C11_line_step (what is logged while a line is read names that line)
+  and C11_line_partial (every diagnostic names a line of the comment).  The caret clause at
+  block level and the diagnostics of `validate()` are covered by the model correspondence (every
   diagnostic with line, caret and quoted line is compared with the real parser) and by the
   statement-level oracles of harness/c11.py, not by a theorem.
 
@@ -22,6 +24,7 @@
 -/
 import GIVerif.Lemmas.AnnParseCaret
 import GIVerif.Lemmas.AnnParseBlockTotal
+import GIVerif.Lemmas.AnnParseBlockDiag
 
 namespace GIVerif.AnnParse
 open GIVerif.Py
@@ -68,6 +71,22 @@ theorem C11_block_total (comment : Str) (lineno : Nat) :
 theorem C11_line_total (h : Hdr) (st : BSt) (ln : Nat) (line : Str) (hinv : BInv st) :
     ∃ st', lineStep h st ln line = .ok st' ∧ BInv st' :=
   lineStep_ok h st ln line hinv
+
+/-- Line numbers, per line: whatever the state machine logs while it reads the source line numbered `ln`
+    names exactly that line (every `warn()`/`error()` of the loop body gets `Position(filename, lineno)` of
+    the line being read; nothing logged earlier is changed). -/
+theorem C11_line_step (h : Hdr) (st st' : BSt) (ln : Nat) (line : Str) (hs : lineStep h st ln line = .ok st') :
+    ∃ d, st'.diags = st.diags ++ d ∧ ∀ x ∈ d, x.line = ln :=
+  lineStep_grows h st ln line st' hs
+
+/-- Line numbers, whole block (the state machine, i.e. everything but `validate()`, whose diagnostics on
+    the unchanged tree can lack a position altogether — recorded finding): when the opening token stands
+    alone on its line, every diagnostic names a line of the comment itself, between its first line `lineno`
+    and its last line. -/
+theorem C11_line_partial (comment : Str) (lineno : Nat) (b : Option BlockM) (d : List BDiag)
+    (h : parseBlock comment lineno = .ok (b, d)) (halone : OpeningAlone (commentLines comment)) :
+    ∀ x ∈ d, lineno ≤ x.line ∧ x.line < lineno + (commentLines comment).length :=
+  parseBlock_diag_lines comment lineno b d h halone
 
 /-- Atomicity: when the tokenizer rejects a field (unbalanced / unexpected parentheses), the
     part's annotations are exactly as before — on a first line the part keeps no annotation,
@@ -283,6 +302,14 @@ example : (parseBlock (str "/**\n * foo: ((skip)\n * @p: (in\n * out)\n */") 10)
            ⟨.error, .unbalancedParens, 12, some 9, some (str " * @p: (in")⟩]) := by decide +kernel
 
 example : BInv BSt.init := by simp [BInv, BSt.init]
+
+example : OpeningAlone (commentLines (str "/**\n * foo: ((skip)\n */")) := by
+  have h1 : commentLines (str "/**\n * foo: ((skip)\n */") = [str "/**", str " * foo: ((skip)", str " */"] := by
+    decide +kernel
+  have h2 : matchStart (str "/**") = some [("code", 0, 0), ("token", 0, 3), ("comment", 3, 3)] := by decide +kernel
+  rw [h1]
+  simp only [OpeningAlone, h2]
+  decide +kernel
 
 example : ((Logger.new false).logAll [.warning, .error, .warning]).warningCount = 3 := by decide
 example : warnFatalFails true ((Logger.new false).logAll [.warning]) = true := by decide
